@@ -226,3 +226,61 @@ def ob_burrow(op, amax=3, tier="quick", budget_s=150):
     return {"status": st, "paths": n, "vcs": n, "solver_s": round(time.time() - t0, 2), "reason": "" if n else "vacuous: no shape generated",
             "failures": failures[:5], "n_failures": len(failures), "covers": {"shapes": n, "if-burrowed-below-the-root": burrowed}, "samples": samples,
             "known_used": [], "ext_discharged": {}, "n_spurious": 0, "spurious": []}
+
+
+def ob_burrow_sizes(tier="quick"):
+    """burrow_ite on  If(c, f(a), f(b))  where f changes the size of its operand (Extract, ZeroExt, SignExt, Concat) and the operands a, b of the
+    two branches have EVERY combination of widths for which both branches are well-formed and equally wide: the branches then differ in one
+    argument whose two versions may have different sizes, so an If between them need not exist.  The real burrow_ite must not raise, and its
+    output is proved equivalent to its input by z3.  (ob_burrow uses one operand width throughout.)"""
+    import claripy
+    import z3
+    t0 = time.time()
+    B = claripy.backends.z3
+    c = claripy.ULT(claripy.BVS("p", 4, explicit_name=True), claripy.BVS("q", 4, explicit_name=True))
+    W = (1, 2, 3, 4)
+    v = lambda nm, w: claripy.BVS(f"{nm}{w}", w, explicit_name=True)
+    shapes = []
+    for w1 in W:
+        for w2 in W:
+            a, b = v("a", w1), v("b", w2) + 1          # a leaf in one branch, an operation in the other (both forms occur in practice)
+            for lo in range(min(w1, w2)):
+                for hi in range(lo, min(w1, w2)):
+                    shapes.append(("Extract", claripy.Extract(hi, lo, a + 1), claripy.Extract(hi, lo, b)))
+            for tot in (4, 5):
+                if w1 <= tot and w2 <= tot:
+                    shapes.append(("ZeroExt", claripy.ZeroExt(tot - w1, a + 1) if tot > w1 else a + 1, claripy.ZeroExt(tot - w2, b) if tot > w2 else b))
+                    shapes.append(("SignExt", claripy.SignExt(tot - w1, a + 1) if tot > w1 else a + 1, claripy.SignExt(tot - w2, b) if tot > w2 else b))
+                if w1 < tot and w2 < tot:
+                    r = v("r", tot - w1)
+                    shapes.append(("Concat", claripy.Concat(a + 1, r), claripy.Concat(b, v("s", tot - w2) if w1 != w2 else r)))
+                    shapes.append(("Concat", claripy.Concat(r, a + 1), claripy.Concat(v("s", tot - w2) if w1 != w2 else r, b)))
+    n, burrowed, failures, samples = 0, 0, [], []
+    for kind, A, Bx in shapes:
+        if A.length != Bx.length:
+            continue
+        e = claripy.If(c, A, Bx)
+        try:
+            r = claripy.burrow_ite(e)
+        except Exception as ex:  # noqa
+            failures.append({"label": f"burrow_ite.sizes[{kind}]/raises", "kind": "raises", "witness": {"e": str(e)}, "detail": f"burrow_ite({e}): {type(ex).__name__}: {ex}",
+                             "replay": {"reproduced": True, "text": f"claripy.burrow_ite({e}) raised {type(ex).__name__}: {ex}"}})
+            continue
+        n += 1
+        burrowed += r.op != "If"
+        s = z3.Solver(ctx=B._context)
+        s.set("timeout", 20000)
+        s.add(B.convert(e) != B.convert(r))
+        res = s.check()
+        if res == z3.unknown:
+            return {"status": "undecided", "paths": n, "vcs": n, "reason": f"z3 unknown on {e}", "failures": [], "samples": samples}
+        if res == z3.sat:
+            failures.append({"label": f"burrow_ite.sizes[{kind}]/equivalent", "kind": "ensures", "witness": {"e": str(e), "result": str(r), "model": str(s.model())[:300]},
+                             "detail": "burrow_ite(e) is not equivalent to e",
+                             "replay": {"reproduced": True, "text": f"claripy.burrow_ite({e}) = {r}; they differ under {str(s.model())[:300]}"}})
+        elif len(samples) < 2 and r is not e:
+            samples.append({"e": str(e), "result": str(r)})
+    st = "violated" if failures else ("discharged" if n else "undecided")
+    return {"status": st, "paths": n, "vcs": n, "solver_s": round(time.time() - t0, 2), "reason": "" if n else "vacuous: no shape generated",
+            "failures": failures[:5], "n_failures": len(failures), "covers": {"shapes": n, "if-burrowed-below-the-root": int(burrowed)}, "samples": samples,
+            "known_used": [], "ext_discharged": {}, "n_spurious": 0, "spurious": []}
